@@ -898,6 +898,13 @@ class Frame(object):
                 new = base.env.get(name)
                 if isinstance(new, ListV) and len(new.elems) > len(old.elems):
                     base.env[name] = ListV(old.elems + [EachV(vartext, colltext, new.elems[len(old.elems):])], old.kind)
+            elif isinstance(old, Const) and isinstance(old.value, str) and target is not None:
+                # text accumulated in a loop (s += piece): s + ''.join(piece for ...), if every path of the body appends the same piece
+                pre = '(%s + ' % render(old)
+                news = set(render(s.env.get(name)) if s.env.get(name) is not None else None for s in normal)
+                new = base.env.get(name)
+                if len(news) == 1 and isinstance(new, Sym) and new.text.startswith(pre) and new.text.endswith(')') and _balanced(new.text[len(pre):-1]):
+                    base.env[name] = Sym("(%s + ''.join(EACH(%s in %s;%s)))" % (render(old), vartext, colltext, new.text[len(pre):-1]))
         # yields inside the loop
         ys = []
         for s in normal:
@@ -1701,6 +1708,10 @@ class Frame(object):
             if n in ('iter', 'list', 'tuple') and len(args) == 1 and isinstance(args[0], EachV) and not kwargs:
                 record(n)
                 return args[0]
+            if n in ('frozenset', 'set', 'tuple', 'list') and len(args) == 1 and not kwargs and isinstance(args[0], ListV) and \
+                    all(isinstance(e, Const) for e in args[0].elems):
+                record(n)
+                return ListV(args[0].elems, 'set' if n in ('set', 'frozenset') else n)     # a literal collection, whatever its container
             if n == 'iter' and len(args) == 1 and not kwargs and isinstance(args[0], Const) and isinstance(args[0].value, (tuple, list, bytes, bytearray)):
                 record(n)
                 return args[0]          # iterating iter(<literal sequence>) is iterating the sequence
